@@ -443,7 +443,7 @@ def run_prop(prop, ctx):
     tier, seed = ctx["tier"], ctx["seed"]
     run = pipeline.Runner()
     try:
-        streams = [general_stream(run, prop, tier, seed, 150, 3000)]
+        streams = [general_stream(run, prop, tier, seed, 400, 3000)]
         streams += SPECIFIC[prop](run, tier, seed)
         if prop in ("C02", "C03"):
             streams.append(pipeline.wild_stream(run, prop, tier, seed, oracles=(ORACLES[prop],)))
